@@ -62,6 +62,8 @@ def gen_dataset(s: Choices, vdtype: str, tier: str, max_n: int = 200, allow_mult
         arb = dt.startswith("float") and s.chance(1, 8)
         cols.append({"dtype": dt, "arb": arb, "name": f"v{c}", "inf": arb and s.chance(1, 3)})
     ds["named"] = bool(s.draw(2))
+    # how several value columns are handed over (a mapping, a list, a frame, a 2-D array)
+    ds["values_form"] = s.weighted([(4, "dict"), (2, "list"), (2, "dataframe"), (1, "ndarray2d")])
     ds["index"] = s.weighted([(3, "range"), (1, "custom")])
     size_class = s.weighted([(7, 0), (5, 1), (1, 2)])
     if size_class == 0:
@@ -272,6 +274,8 @@ def gen_layout(s: Choices, ds, chunk_keys_ok=True):
         # dataset free of them so that baseline and explored strategy stay comparable
         ds["named"] = False
         ds["index"] = "range"
+    if any(l["container"] != "base" for l in lay["cols"]) and ds.get("values_form") in ("dataframe", "ndarray2d"):
+        ds["values_form"] = "dict"  # a frame / matrix cannot hold a chunked column (same form for the baseline)
     return lay
 
 
@@ -399,10 +403,23 @@ def build_col(ds, c, lay=None, writable=True):
 
 def build_values(ds, lay=None, cols=None):
     """Single column -> the array itself; several -> dict name -> array."""
+    import pandas as pd
+
     cols = list(range(len(ds["cols"]))) if cols is None else cols
     if len(cols) == 1:
         return build_col(ds, cols[0], lay)
-    return {ds["cols"][c]["name"]: build_col(ds, c, lay) for c in cols}
+    form = ds.get("values_form", "dict")
+    chunked = lay is not None and any(lay["cols"][c]["container"] != "base" for c in cols)
+    if chunked and form in ("dataframe", "ndarray2d"):
+        form = "dict"  # a frame / matrix cannot hold a chunked column
+    built = {ds["cols"][c]["name"]: build_col(ds, c, lay) for c in cols}
+    if form == "list":
+        return list(built.values())
+    if form == "dataframe":
+        return pd.DataFrame({k: np.asarray(v) for k, v in built.items()}, index=_index(ds))
+    if form == "ndarray2d" and len({ds["cols"][c]["dtype"] for c in cols}) == 1:
+        return np.column_stack([np.asarray(v) for v in built.values()])
+    return built
 
 
 def build_mask(ds, mask):
